@@ -103,6 +103,7 @@ long		inclFileLineNo   = 1;	/* Filled in at end. */
 
 Buffer  	inclBuffer;		/* Input buffer */
 String 		curLineString;          /* The current line being processed */
+static Bool	inclLineHasNul = false;	/* Did the current line contain a NUL byte? */
 IfState 	ifState;                /* State of current )if */
 FileState	fileState;		/* State of current file */
 HashList      	includedFileCodes = 0; 	/* Hash codes of all included files */
@@ -440,6 +441,9 @@ inclLine(SrcLineList *psll, InclIsContinuedFun isCont)
 		}
 		fileState.lineNumber++;
 		inclSerialLineNo++;
+		if (inclLineHasNul && INCLUDING(ifState))
+			*psll = listNConcat(SrcLine)
+				(inclError(ALDOR_E_ScanBadChar), *psll);
 		if (inclIsDirective(curLineString)) {
 			/*!! This may be too costly with deep nesting. */
 			d_sll = inclHandleDirective();
@@ -771,7 +775,13 @@ inclGetLine(FILE *file)
 	String	s;
 
 	bufStart(inclBuffer);
+	inclLineHasNul = false;
 	while ((c = osGetc(file)) != EOF) {
+		if (c == char0) {
+			/* A NUL would cut the line (and glue the next one on). */
+			inclLineHasNul = true;
+			c = ' ';
+		}
 		bufAdd1(inclBuffer, c);
 		if (c == '\n') break;
 	}
